@@ -8,9 +8,32 @@ ROOT = os.path.dirname(os.path.dirname(os.path.abspath(__file__)))
 COQ = os.path.join(ROOT, "coq")
 BUILD = os.path.join(ROOT, ".build")
 WORK = os.path.join(ROOT, ".work")
-HARNESS = os.path.join(ROOT, "harness")
-TARGET = os.path.join(BUILD, "target")
-REPO = "/repo"
+# The checks registered in MANIFEST.json run against /repo.  For trying a seeded change in isolation
+# (without touching /repo, which other work may be using) VERIF_REPO=<scratch worktree> redirects every
+# build to that tree: the harness is copied with its path dependencies rewritten and gets its own
+# target directories under .build/alt_<hash>/ (remove them afterwards).
+REPO = os.environ.get("VERIF_REPO", "/repo").rstrip("/")
+if REPO == "/repo":
+    HARNESS = os.path.join(ROOT, "harness")
+    TARGET = os.path.join(BUILD, "target")
+    PNA_TARGET = os.path.join(BUILD, "target-pna")
+else:
+    _alt = os.path.join(BUILD, "alt_" + hashlib.sha256(REPO.encode()).hexdigest()[:10])
+    HARNESS = os.path.join(_alt, "harness")
+    TARGET = os.path.join(_alt, "target")
+    PNA_TARGET = os.path.join(_alt, "target-pna")
+
+
+def _sync_alt_harness():
+    if REPO == "/repo":
+        return
+    src = os.path.join(ROOT, "harness")
+    os.makedirs(HARNESS, exist_ok=True)
+    sh(["rsync", "-a", "--delete", "--exclude", "target", "--exclude", "Cargo.lock", src + "/", HARNESS + "/"])
+    for rel in ("Cargo.toml", os.path.join(".cargo", "config.toml")):
+        f = os.path.join(HARNESS, rel)
+        t = open(f).read().replace('"/repo/', '"%s/' % REPO).replace("/verif/.build/target", TARGET)
+        open(f, "w").write(t)
 
 ENV = dict(os.environ, CARGO_NET_OFFLINE="true", CARGO_TERM_COLOR="never")
 
@@ -179,8 +202,9 @@ def build_model(area, timeout=1200):
 def build_harness(bins=None, timeout=3000):
     """cargo build of the harness against /repo's current working tree, hooks on
     (RUSTFLAGS --cfg pna_verif comes from harness/.cargo/config.toml)."""
+    _sync_alt_harness()
     lock = os.path.join(HARNESS, "Cargo.lock")
-    with Lock("cargo"):
+    with Lock("cargo" if REPO == "/repo" else "cargo_alt"):
         if not os.path.exists(lock) or open(lock).read().count("name = ") < 50:
             shutil.copy(os.path.join(REPO, "Cargo.lock"), lock)
         cmd = ["cargo", "build", "--offline", "--quiet"]
@@ -197,11 +221,11 @@ def build_harness(bins=None, timeout=3000):
 
 def build_pna(timeout=3000):
     """the real `pna` binary from /repo's working tree (same target dir, hooks cfg on)."""
-    with Lock("cargo"):
+    with Lock("cargo" if REPO == "/repo" else "cargo_alt"):
         env = dict(ENV, RUSTFLAGS="--cfg pna_verif")
         rc, out = sh(["cargo", "build", "--offline", "--quiet", "--manifest-path", os.path.join(REPO, "cli", "Cargo.toml"),
-                      "--bin", "pna", "--target-dir", os.path.join(BUILD, "target-pna")], cwd=REPO, timeout=timeout, env=env)
-    return rc == 0, os.path.join(BUILD, "target-pna", "debug", "pna"), out
+                      "--bin", "pna", "--target-dir", PNA_TARGET], cwd=REPO, timeout=timeout, env=env)
+    return rc == 0, os.path.join(PNA_TARGET, "debug", "pna"), out
 
 
 def harness_bin(name):
